@@ -82,6 +82,14 @@ TXN_ACCESS = {
     "Lease": lambda: pt.Txn.lease(), "CloseRemainderTo": lambda: pt.Txn.close_remainder_to(),
 }
 
+OBJ_ACCESS = {
+    "Sender": lambda o: o.sender(), "Fee": lambda o: o.fee(), "Amount": lambda o: o.amount(),
+    "Receiver": lambda o: o.receiver(), "TypeEnum": lambda o: o.type_enum(), "Note": lambda o: o.note(),
+    "XferAsset": lambda o: o.xfer_asset(), "AssetAmount": lambda o: o.asset_amount(),
+    "ApplicationID": lambda o: o.application_id(), "OnCompletion": lambda o: o.on_completion(),
+    "GroupIndex": lambda o: o.group_index(),
+}
+
 GLOBAL_ACCESS = {
     "MinTxnFee": pt.Global.min_txn_fee, "MinBalance": pt.Global.min_balance, "MaxTxnLife": pt.Global.max_txn_life,
     "ZeroAddress": pt.Global.zero_address, "GroupSize": pt.Global.group_size,
@@ -239,6 +247,16 @@ class Builder:
 
     def b_TxnField(self, t):
         return TXN_ACCESS[t[1]]()
+
+    def b_GtxnField(self, t):
+        idx = t[1] if isinstance(t[1], int) else self.b(t[1])
+        return OBJ_ACCESS[t[2]](pt.Gtxn[idx])
+
+    def b_TxnArr(self, t):
+        idx = t[2] if isinstance(t[2], int) else self.b(t[2])
+        arr = {"ApplicationArgs": pt.Txn.application_args, "Accounts": pt.Txn.accounts, "Assets": pt.Txn.assets,
+               "Applications": pt.Txn.applications}[t[1]]
+        return arr[idx]
 
     def b_GlobalField(self, t):
         return GLOBAL_ACCESS[t[1]]()
